@@ -9,6 +9,7 @@
 package main
 
 import (
+	"math"
 	"context"
 	"fmt"
 
@@ -155,6 +156,68 @@ func runKinds(order []int, dupOf int) []seqmc.Violation {
 	return nil
 }
 
+// runNaN: every sequence of <=5 insertions over {"x", "y", an item that is not
+// equal to itself (a struct holding NaN)}, then Close and a full drain, against
+// the model: an item equal to a pending one is coalesced (count + 1, position
+// kept); an item equal to nothing - not even itself - is always a new item.
+func runNaN(seq []int) []seqmc.Violation {
+	type nan struct{ f float64 }
+	mk := func(k int) interface{} {
+		switch k {
+		case 0:
+			return "x"
+		case 1:
+			return "y"
+		}
+		return nan{math.NaN()}
+	}
+	type ent struct {
+		k    int
+		dups uint32
+	}
+	var model []ent
+	q := coalesce.NewQueue()
+	desc := fmt.Sprintf("insertions %v (0 = \"x\", 1 = \"y\", 2 = struct{NaN})", seq)
+	for _, k := range seq {
+		wantNew := true
+		if k != 2 {
+			for i := range model {
+				if model[i].k == k {
+					model[i].dups++
+					wantNew = false
+				}
+			}
+		}
+		if wantNew {
+			model = append(model, ent{k, 0})
+		}
+		if ok, err := q.Insert(mk(k)); ok != wantNew || err != nil {
+			return vio("insert-result", "%s: Insert(item %d) = (%v, %v), the model says new=%v", desc, k, ok, err, wantNew)
+		}
+		if q.Len() != len(model) {
+			return vio("len", "%s: Len() = %d, %d items pending", desc, q.Len(), len(model))
+		}
+	}
+	q.Close()
+	for i, e := range model {
+		it, d, err := q.Next(context.Background())
+		same := false
+		switch v := it.(type) {
+		case string:
+			same = e.k < 2 && v == mk(e.k)
+		case nan:
+			same = e.k == 2 && math.IsNaN(v.f)
+		}
+		if err != nil || !same || d != e.dups {
+			return vio("order-or-duplicates", "%s: delivery %d = (%#v, dup %d, %v), expected (item %d, dup %d)", desc, i, it, d, err, e.k, e.dups)
+		}
+	}
+	if it, _, err := q.Next(context.Background()); it != nil || !coalesce.IsClosedQueue(err) {
+		return vio("closed-not-reported", "%s: Next on the closed, drained queue = (%v, %v)", desc, it, err)
+	}
+	return nil
+}
+
 type harness struct{}
 
 func (harness) Property() string { return "C11" }
@@ -198,11 +261,27 @@ func (harness) Specs(tier string) []seqmc.Spec {
 		}
 	}
 	rec(nil)
+	var nseqs [][]int
+	var nrec func(cur []int)
+	nrec = func(cur []int) {
+		if len(cur) > 0 {
+			nseqs = append(nseqs, append([]int{}, cur...))
+		}
+		if len(cur) == 5 {
+			return
+		}
+		for k := 0; k < 3; k++ {
+			nrec(append(cur, k))
+		}
+	}
+	nrec(nil)
 	return []seqmc.Spec{{Name: fmt.Sprintf("burst 0..%d x slide 0..%d x re-insert period {none, 3}, drained, closed", max, max), N: len(cases), Run: func(i int) (string, bool, []seqmc.Violation) {
 		c := cases[i]
 		return fmt.Sprintf("%+v", c), c.burst > 8, run(c)
 	}}, {Name: "items of unusual kinds (nil interface, typed nil pointer, zero values, empty struct): 1-3 pending, one re-inserted, drained after close", N: len(kcs), Run: func(i int) (string, bool, []seqmc.Violation) {
 		return fmt.Sprintf("%+v", kcs[i]), true, runKinds(kcs[i].order, kcs[i].dup)
+	}}, {Name: fmt.Sprintf("every sequence of <=5 insertions over two ordinary items and one that is not equal to itself (NaN), closed, drained (%d sequences)", len(nseqs)), N: len(nseqs), Run: func(i int) (string, bool, []seqmc.Violation) {
+		return fmt.Sprint(nseqs[i]), true, runNaN(nseqs[i])
 	}}}
 }
 
